@@ -38,6 +38,9 @@ ASSUMPTIONS = [
     "are outside C10's inputs)",
     "through Sgp4 the state is a step function of time (the sgp4 package's Julian date, 40 us): the value of "
     "the watched quantity at a located event is held to 45 us x its rate instead of the bisection's 3 us",
+    "restart: a stream may start from a state yielded by an earlier stream (an event state still carrying its "
+    "event, or a plain sample) or from an Ephem whose stored points are such states: states of the new stream "
+    "carry an event only at a sign change of one of ITS listeners, plain samples carry none",
     "no leap second inside the iterated span (C03: the library's dates do not handle them)",
     "EOP: zero corrections on even shards, real tables (missing policy 'pass' for Date.now()) on odd shards",
 ]
@@ -361,7 +364,7 @@ def make_listeners(case):
 
 
 class Item:
-    __slots__ = ("label", "lis", "us", "sv", "obj_id", "dup")
+    __slots__ = ("label", "lis", "us", "sv", "obj_id", "dup", "obj")
 
     def __init__(self, o, start, listeners):
         ev = getattr(o, "event", None)
@@ -375,6 +378,7 @@ class Item:
         self.us = (d.days * 86400 + d.seconds) * US + d.microseconds
         self.sv = o.copy()
         self.obj_id = id(o)
+        self.obj = o  # the very object that was yielded (a later stream may start from it)
         self.dup = False
 
 
@@ -385,14 +389,15 @@ def run_stream(source, case, listeners, rng=None):
         it = source.iter(**kwargs)
     else:
         it = source.iter(start=start, stop=stop, step=step, **kwargs)
+    return collect(it, start, listeners, 4 * case["n"] + 200)
+
+
+def collect(it, start, listeners, limit):
     items = []
-    keep = []
-    limit = 4 * case["n"] + 200
     for o in it:
-        keep.append(o)  # ids stay unique while the objects are alive
-        items.append(Item(o, start, listeners))
+        items.append(Item(o, start, listeners))  # (the item keeps the object: ids stay unique)
         if len(items) > limit:
-            raise Violation("stream-runaway", f"more than {limit} items for {case['n']} steps")
+            raise Violation("stream-runaway", f"more than {limit} items")
     # a sample that the bisection returned as the event comes twice (same object): the second
     # occurrence is the sample
     for a, b in zip(items, items[1:]):
@@ -1360,6 +1365,131 @@ def check_find(case):
     return dict(nt=nt, cls=classes_of(case, stats) + sorted({f"q:{q['kind']}" for q in case["queries"]}))
 
 
+# ------------------------------------------------------------------ a stream that starts from a yielded state
+
+RESTART_PROPS = ["kepler", "kepler", "j2", "ephem-of-yielded-states", "ephem-of-yielded-states", "keplernum-real-steps"]
+
+
+@st.composite
+def restart_case(draw, shard, tier):
+    """First stream: a Kepler orbit with node / apside (+ drawn) listeners.  Second stream: starts from a
+    state the first one YIELDED - an event state (it carries its event) or a plain sample - handed to a
+    propagator that copies the stored orbit, or from an Ephem whose points are such yielded states."""
+    case = draw(source_spec(("kepler",)))
+    case["n"] = min(case["n"], 70)
+    case["listeners"] = [dict(kind="node", frame=None), dict(kind="apside", frame=None)] + \
+        [draw(listener_spec(case, LISTENER_KINDS)) for _ in range(draw(st.integers(0, 1)))]
+    case["pick"] = dict(kind=draw(st.sampled_from(["event", "event", "event", "sample"])), index=draw(st.integers(0, 5)))
+    case["second"] = dict(prop=draw(st.sampled_from(RESTART_PROPS)), n=draw(st.integers(12, 45)),
+                          reuse_listeners=draw(st.booleans()),
+                          listeners=[draw(listener_spec(case, ["node", "apside", "anomaly", "light", "terminator"]))
+                                     for _ in range(draw(st.integers(1, 2)))])
+    return case
+
+
+def check_restart(case):
+    from beyond.dates import timedelta
+    from beyond.orbits import Ephem
+    from beyond.propagators.listeners import events_iterator, find_event
+
+    what = describe(case)
+    source, native = make_source(case)
+    specs1, lis1 = make_listeners(case)
+    first = run_stream(source, case, lis1)
+    events = [it for it in first if it.label is not None and not it.dup]
+    plain = [it for it in first if it.label is None]
+    pick = case["pick"]
+    pool = events if (pick["kind"] == "event" and events) else plain
+    k0 = pick["index"] % len(pool)
+    picked = pool[k0]
+    sec = case["second"]
+    sec_listeners = sec["listeners"]
+    if sec["prop"] == "ephem-of-yielded-states":
+        # the stored points include the node / apside states of the first stream, which sit exactly ON the
+        # zero of those quantities (sign of an exact zero is outside the property): watch something else
+        sec_listeners = [x for x in sec_listeners if x["kind"] not in ("node", "apside")] or [dict(kind="light", type="umbra", frame=None)]
+    case2 = dict(case, listeners=sec_listeners, n=sec["n"], prop="kepler", offset=0.0)
+    specs2, lis2 = make_listeners(case2)
+    if sec["reuse_listeners"] and sec["prop"] != "ephem-of-yielded-states":
+        # the same listener objects as in the first stream where the kinds coincide
+        specs2, lis2 = specs1, lis1
+        case2["listeners"] = case["listeners"]
+    prop2 = sec["prop"]
+    step = timedelta(seconds=case["step"])
+    start2 = picked.obj.date
+    stale = picked.label
+    desc = (f"{what}; second stream ({prop2}, {[_short(x) for x in case2['listeners']]}) starts from the "
+            f"{'event state ' + repr(stale) if stale else 'plain sample'} yielded at t = {picked.us / 1e6} s")
+
+    def second_iter():
+        if prop2 == "ephem-of-yielded-states":
+            # the yielded objects themselves (events included) become the stored points of an Ephem
+            def increasing(seq):
+                out, last = [], None
+                for it in seq:  # an Ephem needs strictly increasing dates (an event may share its sample's date)
+                    if not it.dup and (last is None or it.us > last):
+                        out.append(it.obj)
+                        last = it.us
+                return out
+
+            pts = increasing(first[first.index(picked):])[:sec["n"] + 8]
+            if len(pts) < 9:
+                pts = increasing(first)[-12:]
+            eph = Ephem(pts)
+            return eph.iter(listeners=list(lis2)), pts[0].date, len(pts)
+        orb = picked.obj
+        if prop2 == "kepler":
+            from beyond.propagators.kepler import Kepler
+
+            orb.propagator = Kepler()
+        elif prop2 == "j2":
+            from beyond.propagators.j2 import J2
+
+            orb.propagator = J2()
+        else:
+            from beyond.env.solarsystem import get_body
+            from beyond.propagators.keplernum import KeplerNum
+
+            orb.propagator = KeplerNum(step, get_body("Earth"))
+            return (orb.iter(start=start2, stop=start2 + step * sec["n"], step=step, listeners=list(lis2), real_steps=True),
+                    start2, sec["n"] + 1)
+        return orb.iter(start=start2, stop=start2 + step * sec["n"], step=step, listeners=list(lis2)), start2, sec["n"] + 1
+
+    it2, t0, nsamples = second_iter()
+    items = collect(it2, t0, lis2, 6 * sec["n"] + 300)
+    # soundness first: a state that carries an event must carry one of THIS iteration's listeners
+    for it in items:
+        if it.label is not None and it.lis is None:
+            raise Violation("stale-event", f"{desc}: the state at t = {it.us / 1e6} s carries the event {it.label!r}, which "
+                                           f"belongs to no listener of this iteration")
+    sidx = samples_of(items)
+    if len(sidx) != nsamples:
+        raise Violation("order-grid", f"{desc}: {len(sidx)} plain samples in the second stream, {nsamples} expected")
+    if items and items[0].label is not None and not items[0].dup:
+        raise Violation("reuse-leak", f"{desc}: the second stream starts with the event {items[0].label!r}")
+    aspects = {"model", "labels"} | ({"ordered"} if prop2 in ("kepler", "j2") else set())
+    for a, b in zip(items, items[1:]):
+        if b.us < a.us:
+            raise Violation("order-stream", f"{desc}: item at {b.us} us comes after item at {a.us} us")
+    _, stats, _ = analyse(case2, aspects, source=source, listeners=lis2, specs=specs2, items=items)
+    # the helpers on such a stream: exactly the states that carry an event, in order
+    it3, t0b, _ = second_iter()
+    got = [_ev(o, t0b) for o in events_iterator(it3)]
+    want = [(it.us, it.label) for it in items if it.label is not None]
+    if got != want:
+        raise Violation("events-iterator", f"{desc}: events_iterator yields {len(got)} states {got[:3]}, the stream holds "
+                                           f"{len(want)} states with an event {want[:3]}")
+    if want:
+        it4, t0c, _ = second_iter()
+        f = _ev(find_event(it4, want[0][1]), t0c)
+        if f != want[0]:
+            raise Violation("find-event", f"{desc}: find_event(..., {want[0][1]!r}) gives {f}, the stream's first is {want[0]}")
+    cls = classes_of(case2, stats) + [f"second:{prop2}", "from-event-state" if stale else "from-plain-sample"]
+    if sec["reuse_listeners"]:
+        cls.append("listeners-reused")
+    return dict(nt=stale is not None, cls=cls)
+
+
 # ------------------------------------------------------------------ facets
 
 FACETS = [
@@ -1392,6 +1522,9 @@ FACETS = [
           quick=(8, 2), thorough=(32, 8)),
     Facet("find_event", find_case, check_find, setup=setup, shrink_quick=False,
           rule="at least one query that has an answer in the stream", quick=(6, 5), thorough=(16, 40)),
+    Facet("restart_from_yielded_state", restart_case, check_restart, setup=setup, shrink_quick=False,
+          rule="the second stream starts from a state that carries an event of the first stream",
+          quick=(6, 5), thorough=(16, 40)),
     Facet("reuse", reuse_case, check_reuse, setup=setup, shrink_quick=False,
           rule="at least one event over the history", quick=(4, 4), thorough=(16, 25)),
 ]
